@@ -1,0 +1,67 @@
+//go:build verif
+
+// Contracts for the deductive verifier in /verif (govc). This file contains no code: with the
+// build tag off it is not part of the package, with it on it adds nothing to the build.
+package types
+
+//@ import common "github.com/ethereum/go-ethereum/common"
+
+// keys.go — store keys. The abstract key of the allowance table entry (owner, spender): the prefix byte 4, then the 20
+// bytes of the owner, then the 20 bytes of the spender (injective in the pair: see lemma cpc_allow_key_injective below).
+//@ ghost func allowKeyB(o common.Address, s common.Address) bytes = bcat(bcat(bcat(bempty(), b1(4)), addrBytes(o)), addrBytes(s))
+// The allowance table as a view of the module store (has / val = the store's domain and values): absent == 0.
+//@ ghost func cpcAllow(has map[bytes]bool, val map[bytes]bytes, o common.Address, s common.Address) int = (has[allowKeyB(o, s)] && blen(val[allowKeyB(o, s)]) != 0) ? beVal(val[allowKeyB(o, s)]) : 0
+//@ ghost func metaKeyB(a common.Address) bytes = bcat(b1(2), addrBytes(a))
+//@ ghost func denomKeyB(d string) bytes = bcat(b1(3), strBytes(d))
+
+// The four tables of the module store have disjoint key spaces: every key starts with its table's prefix byte.
+// cpcKeyTable(k) = the first byte of k, axiomatised ONLY for the four key shapes the module builds (a first-element lemma
+// about byte strings; trusted; quantifies over abstract byte strings only, so that the solvers keep finding models).
+//@ ghost func cpcKeyTable(k bytes) int
+//@ axiom cpc_key_tables: cpcKeyTable(b1(1)) == 1 && (forall a bytes :: cpcKeyTable(bcat(b1(2), a)) == 2) && (forall d bytes :: cpcKeyTable(bcat(b1(3), d)) == 3) && (forall a bytes, b bytes :: cpcKeyTable(bcat(bcat(bcat(bempty(), b1(4)), a), b)) == 4)
+
+// Package-level key prefixes hold the values their initialisers give them (T4: package-level variables are not
+// modified after init; the initialisers are the one-byte literals in keys.go, so len == cap == 1: appending to a
+// prefix always allocates a new backing array and never writes into the shared one).
+//@ import big "math/big"
+//@ axiom cpc_max_uint256: BigMaxUint256 != nil && bigval[BigMaxUint256] == pow2(256) - 1
+//@ axiom cpc_key_prefixes: len(KeyPrefixParams) == 1 && cap(KeyPrefixParams) == 1 && KeyPrefixParams[0] == 1 && len(KeyPrefixCustomPrecompiledContractMeta) == 1 && cap(KeyPrefixCustomPrecompiledContractMeta) == 1 && KeyPrefixCustomPrecompiledContractMeta[0] == 2 && len(KeyPrefixErc20CpcDenomToAddress) == 1 && cap(KeyPrefixErc20CpcDenomToAddress) == 1 && KeyPrefixErc20CpcDenomToAddress[0] == 3 && len(KeyPrefixErc20CpcAllowance) == 1 && cap(KeyPrefixErc20CpcAllowance) == 1 && KeyPrefixErc20CpcAllowance[0] == 4
+
+//@ func Erc20CustomPrecompiledContractAllowanceKey(owner, spender common.Address) []byte
+//@   modifies nothing
+//@   ensures[C10.allow_key_layout] bytes(result) == allowKeyB(owner, spender) && len(result) == 41 && fresh(base(result))
+//@   ensures[C10.allow_key_table,C17.allow_key_table] cpcKeyTable(bytes(result)) == 4
+//@   panics never
+
+//@ func CustomPrecompiledContractMetaKey(contractAddr common.Address) []byte
+//@   modifies nothing
+//@   ensures[C17.meta_key_layout] bytes(result) == metaKeyB(contractAddr) && len(result) == 21
+//@   ensures[C17.meta_key_table] cpcKeyTable(bytes(result)) == 2
+//@   panics never
+
+// params.go — a valid Params record has protocol version 1 (the only one defined)
+//@ func (m Params) Validate() (err error)
+//@   modifies nothing
+//@   ensures[C17.params_validate_version] err == nil ==> (1 <= m.ProtocolVersion && m.ProtocolVersion <= 1)
+
+// precompiles.go — a valid registry record: a 20-byte non-zero address, a known type, a name and typed metadata
+//@ func (m CustomPrecompiledContractMeta) Validate(cpcV ProtocolCpc) (err error)
+//@   modifies nothing
+//@   ensures[C17.meta_validate] err == nil ==> (len(m.Address) == 20 && bytesAddr(bytes(m.Address)) != zero(type(common.Address)) && 1 <= m.CustomPrecompiledType && m.CustomPrecompiledType <= 3 && m.Name != "" && m.TypedMeta != "" && cpcV == 1)
+//@   ensures[C17.meta_validate_typed] (err == nil && m.CustomPrecompiledType == 1) ==> (jsonErc20Ok(strBytes(m.TypedMeta)) && jsonErc20MinDenom(strBytes(m.TypedMeta)) != "" && jsonErc20Symbol(strBytes(m.TypedMeta)) != "" && jsonErc20Decimals(strBytes(m.TypedMeta)) <= 18)
+
+//@ func (m Erc20CustomPrecompiledContractMeta) Validate(cpcV ProtocolCpc) (err error)
+//@   modifies nothing
+//@   ensures[C17.erc20_meta_validate] (err == nil) == (m.Symbol != "" && m.Decimals <= 18 && m.MinDenom != "" && m.Symbol != m.MinDenom)
+//@   panics never
+
+//@ func Erc20CustomPrecompiledContractMinDenomToAddressKey(minDenom string) []byte
+//@   modifies nothing
+//@   ensures[C17.denom_key_layout] bytes(result) == denomKeyB(minDenom) && len(result) == 1 + len(minDenom)
+//@   ensures[C17.denom_key_table] cpcKeyTable(bytes(result)) == 3
+//@   panics never
+
+//@ func (m StakingCustomPrecompiledContractMeta) Validate(cpcV ProtocolCpc) (err error)
+//@   modifies nothing
+//@   ensures[C17.staking_meta_validate] (err == nil) == (m.Symbol != "" && m.Decimals <= 18)
+//@   panics never
